@@ -41,6 +41,12 @@ from pyopenapi_gen.types.strategies.response_strategy import ResponseStrategyRes
 
 from harness.x04 import document  # noqa: E402
 
+# Formatting the emitted models with black is two thirds of the cost of a document and no part of the subject: run the
+# generator in its supported black-less mode (Formatter "falls back to unformatted content if Black is unavailable").
+import pyopenapi_gen.core.utils as _utils  # noqa: E402
+
+_utils.Formatter.format = lambda self, code: code  # type: ignore[method-assign]
+
 MAXD = 5
 CORE = "x04core"  # one shared core package per worker process, emitted once by the real generator (wrapper models import it)
 
@@ -142,19 +148,19 @@ def scan_models(models_dir: str) -> dict[str, dict]:
             continue
         for st in mod.body:
             if isinstance(st, ast.AnnAssign) and isinstance(st.target, ast.Name) and (dotted(st.annotation) or "").split(".")[-1] == "TypeAlias" and st.value is not None:
-                defs.setdefault(st.target.id, {"name": st.target.id, "def": "alias", "sig": "", "args": [tree_of(st.value)], "stem": fn[:-3]})
+                defs.setdefault(st.target.id, {"name": st.target.id, "def": "alias", "base": "", "sig": "", "args": [tree_of(st.value)], "stem": fn[:-3], "text": ast.unparse(st.value)})
             elif isinstance(st, ast.ClassDef):
                 bases = [(dotted(b) or "").split(".")[-1] for b in st.bases]
                 if "Enum" in bases:
                     vals = [repr(s.value.value) if not isinstance(s.value.value, str) else s.value.value for s in st.body if isinstance(s, ast.Assign) and isinstance(s.value, ast.Constant)]
                     base = "string" if "str" in bases else "integer" if "int" in bases else "other"
-                    defs.setdefault(st.name, {"name": st.name, "def": "enum", "sig": base + ":" + ",".join(vals), "args": [], "stem": fn[:-3]})
+                    defs.setdefault(st.name, {"name": st.name, "def": "enum", "base": base, "sig": ",".join(vals), "args": [], "stem": fn[:-3]})
                 elif _is_dataclass(st):
                     fields = [(s.target.id, s.annotation) for s in st.body if isinstance(s, ast.AnnAssign) and isinstance(s.target, ast.Name) and (dotted(s.annotation.value) if isinstance(s.annotation, ast.Subscript) else "") != "ClassVar"]
                     if [f for f, _ in fields] == ["_data"]:
                         t = tree_of(fields[0][1])
                         val = t["args"][1] if t["k"] == "sub" and len(t["args"]) == 2 else node("bad", "wrapper")
-                        defs.setdefault(st.name, {"name": st.name, "def": "wrapper", "sig": "", "args": [val], "stem": fn[:-3]})
+                        defs.setdefault(st.name, {"name": st.name, "def": "wrapper", "base": "", "sig": "", "args": [val], "stem": fn[:-3]})
                     else:
                         wire = None
                         for s in st.body:
@@ -163,9 +169,9 @@ def scan_models(models_dir: str) -> dict[str, dict]:
                                     if isinstance(m, ast.Assign) and isinstance(m.targets[0], ast.Name) and m.targets[0].id == "key_transform_with_load" and isinstance(m.value, ast.Dict):
                                         wire = [k.value for k in m.value.keys if isinstance(k, ast.Constant)]
                         keys = wire if wire is not None else [f for f, _ in fields]
-                        defs.setdefault(st.name, {"name": st.name, "def": "dataclass", "sig": ",".join(sorted(keys)), "args": [], "stem": fn[:-3]})
+                        defs.setdefault(st.name, {"name": st.name, "def": "dataclass", "base": "", "sig": ",".join(sorted(keys)), "args": [], "stem": fn[:-3]})
                 else:
-                    defs.setdefault(st.name, {"name": st.name, "def": "class", "sig": "", "args": [], "stem": fn[:-3]})
+                    defs.setdefault(st.name, {"name": st.name, "def": "class", "base": "", "sig": "", "args": [], "stem": fn[:-3]})
     return defs
 
 
@@ -180,7 +186,7 @@ def env_for(tree: dict, defs: dict[str, dict]) -> list[dict]:
         if n in seen or n in BUILTIN or n not in defs:
             continue
         e = defs[n]
-        seen[n] = {"name": e["name"], "def": e["def"], "sig": e["sig"], "args": e["args"]}
+        seen[n] = {"name": e["name"], "def": e["def"], "base": e["base"], "sig": e["sig"], "args": e["args"]}
         for a in e["args"]:
             todo.extend(x for x, _ in names_of(a))
     return [seen[k] for k in sorted(seen)]
@@ -270,6 +276,18 @@ class Doc:
                 return svc.resolve_schema_type(sch, ctx, required=(not req) if flip else req)
 
             return cur, sch, req, call
+        if pos == "alias_def":
+            # the alias generator's own question: resolve_underlying=True, inside the module of the alias
+            top = self.schemas["Top"]
+            d = self.defs.get(top.generation_name or "")
+            if d is None or d["def"] != "alias":
+                raise LookupError("not an alias")
+            cur = os.path.join(self.models, f"{top.final_module_stem}.py")
+
+            def call(ctx: Any, svc: Any, flip: bool = False) -> str:
+                return svc.resolve_schema_type(top, ctx, required=True, resolve_underlying=True)
+
+            return cur, top, True, call
         cur = os.path.join(self.endpoints, "default.py")
         if pos in ("param_req", "param_opt"):
             p = [x for x in ops["probe"].parameters if x.name == {"param_req": "qr", "param_opt": "qo"}[pos]][0]
@@ -353,23 +371,24 @@ class Doc:
 
     def one(self, pos: str) -> dict:
         job = self.job
-        rec: dict[str, Any] = {"id": f"{job['id']}/{pos}", "shape": job["shape"], "pos": pos, "hsig": job["hsig"], "ann": "", "exc": "none", "parse": "none", "tree": node("bad", "none"), "env": [], "uses": [], "bound": [], "selfname": "", "probe": "skipped", "again": [], "imps": [], "imps_again": True, "mutated": False, "ir": [], "cur": "", "req": True, "stage": "resolve"}
+        rec: dict[str, Any] = {"id": f"{job['id']}/{pos}", "shape": job["shape"], "pos": pos, "hsig": job["hsig"], "ann": "", "exc": "none", "parse": "none", "tree": node("bad", "none"), "env": [], "uses": [], "bound": [], "selfname": "", "probe": "skipped", "again": [], "imps": [], "imps_again": True, "mutated": False, "ir": [], "cur": "", "curstem": "", "req": True, "stage": "resolve"}
         if self.err:
             rec.update(exc=self.err, stage=self.err.split(":")[0])
             return rec
         try:
             cur, sch, req, call = self.site(pos)
+        except LookupError:
+            rec.update(exc="skip", stage="skip")
+            return rec
         except Exception as ex:
             rec.update(exc=f"site:{type(ex).__name__}", stage="site")
             return rec
         rec["cur"] = os.path.basename(os.path.dirname(cur))
         rec["req"] = bool(req)
         rec["ir"] = [ir_tree(sch, self.schemas)]
+        rec["curstem"] = os.path.basename(cur)[:-3]
         if rec["cur"] == "models":
-            rec["selfname"] = self.schemas["Holder"].generation_name or ""
-            rec["selfstem"] = self.schemas["Holder"].final_module_stem or ""
-        else:
-            rec["selfstem"] = ""
+            rec["selfname"] = next((n for n, d in self.defs.items() if d["stem"] == rec["curstem"]), "")
         fp = fingerprint(sch)
         svc = UnifiedTypeService(self.schemas)
         self.ctx.set_current_file(cur)
@@ -394,6 +413,10 @@ class Doc:
         except Exception as ex:
             again.append("EXC:" + type(ex).__name__)
         rec["again"] = [a if isinstance(a, str) else repr(a) for a in again]
+        if pos == "alias_def" and rec["parse"] == "ok":
+            # what the emitted module really says must be what the resolver said
+            emitted = self.defs[self.schemas["Top"].generation_name]["text"]
+            rec["again"].append(rec["ann"] if emitted == ast.unparse(ast.parse(rec["ann"], mode="eval").body) else "EMITTED:" + emitted)
         rec["mutated"] = fingerprint(sch) != fp
         return rec
 
@@ -402,9 +425,14 @@ class Doc:
         if rec["exc"] != "none":
             return
         cur, sch, req, call = self.site(rec["pos"])
-        self.ctx.set_current_file(cur)
         try:
-            a = call(self.ctx, UnifiedTypeService(self.schemas))
+            # a new service is first asked for the OPPOSITE requiredness (a cache must not carry that answer over) ...
+            svc = UnifiedTypeService(self.schemas)
+            self.ctx.set_current_file(cur)
+            call(self.ctx, svc, True)
+            # ... and then, in a fresh file context, for the position as it is
+            self.ctx.set_current_file(cur)
+            a = call(self.ctx, svc)
             rec["again"].append(a if isinstance(a, str) else repr(a))
             rec["imps_again"] = self.imports_of() == rec["imps"]
         except Exception as ex:
